@@ -104,6 +104,9 @@ func macroInput(s *eval.State, out *bytes.Buffer, text string) string {
 	}
 	sb := &strings.Builder{}
 	sb.WriteString("a=" + dumpTree(program))
+	// repl.EvalOne installs the input's context before evalOne; the macro bodies run under it (counting
+	// context: deterministic deadline), evaluation gets a fresh one below
+	s.Context = &countingCtx{Context: context.Background(), left: 200000}
 	// DefineMacros
 	pk := ""
 	func() {
@@ -636,6 +639,19 @@ var macroFixed = [][]string{
 	{"m = macro(x) { quote(unquote(x) => unquote(x) + 1) }\nm(q)(4)"},
 	{"m = macro(x) { quote(1) }\nm = 3\nm(1)"},
 	{"fs = [x => x + 1, x => x + 2]\nfunc t() { for i = 0:2 { println(fs[i](10)) } }\nt()"},
+	{"quote(unquote(\"a\"))"},
+	{"quote(unquote(1 + 2) * unquote(true))"},
+	{"m = macro(x) { quote(unquote((y => y + 1)(2))) }\nm(1)"},
+	{"m = macro(x) { f = func(a) { println(\"in f\"); a * 2 }\nquote(unquote(f(4))) }\nm(2)"},
+	{"m = macro(x) { quote(unquote(max(1, 2))) }\nm(1)"},
+	{"m = macro(x) { quote(unquote([1, 2][0])) }\nm(1)"},
+	{"m = macro(x) { quote(unquote(len(\"ab\")) + unquote(x)) }\nm(1)"},
+	{"m = macro(x) { quote(unquote(1.5)) }\nm(1)"},
+	{"m = macro(x) { quote(unquote([1])) }\nm(1)"},
+	{"m = macro(x) { quote(unquote(if true { 4 } else { 5 })) }\nm(1)"},
+	{"m = macro(x) { println(\"expanding\")\nquote(unquote(x)) }\nm(1)\nm(2)"},
+	{"m = macro(x) { for true { }\nquote(1) }\nm(1)"},
+	{"m = macro(x) { r = y => if y < 1 { 0 } else { 1 + r(y - 1) }\nquote(unquote(r(3))) }\nm(1)"},
 }
 
 func macroGen(tier string, r *rng, emit func(string)) {
